@@ -181,7 +181,7 @@ func TestVerifC05Nominate(t *testing.T) {
 	}
 	ctx := context.TODO()
 
-	kit.Run(t, kit.Config{Property: "C05", Unit: "nominate", Quick: 6000, Thorough: 300000,
+	kit.Run(t, kit.Config{Property: "C05", Unit: "nominate", Quick: 6000, Thorough: 200000,
 		Rule: "2-5 Available reservations (owner specification of 1-3 entries from a pool of label / object / controller selectors, allocate-once default / true / false, default / Aligned / Restricted policy, group label, 8% unschedulable) on 3 nodes that never limit, 5-9 pods (labels, owner references, namespaces; 44% with a reservation affinity by selector, by name or by terms; 6% ignoring reservations), 8-20 steps: sequential scheduling cycles through the real plugin entry points ending in bind or Unreserve, deletion of assigned pods, completion of reservations, new reservations; distinct = (#reservations, affinity kind, #matched on the node, allocate-once reservation with a pod among the matched, PreScore used, ReservationNominate used, outcome, policy and allocate-once of the nominated reservation); non-trivial = a cycle whose matched set contained an allocate-once reservation that already had an assigned pod"},
 		func(c *kit.Case) {
 			r := c.R
